@@ -2,9 +2,9 @@
     Statements only.  The notions used (siphon, trap, minimal_among, same_set, antichain, weight,
     ordering, realizes, nonneg, markings_along) are defined in proof/C20_Spec.v, [path] (firing
     sequences of a net at the level of marking tuples) in proof/C20_Bfs.v. *)
-From Coq Require Import ZArith NArith List Lia.
+From Coq Require Import ZArith NArith List Lia Permutation.
 Import ListNotations.
-From SK Require Import model.C20_Model proof.C20_Spec proof.C20_Siphon proof.C20_Petri proof.C20_Bfs proof.C20_Build proof.C20_Main proof.C20_Hist proof.C20_Analyzer proof.C20_Undirected.
+From SK Require Import model.C20_Model proof.C20_Spec proof.C20_Siphon proof.C20_Petri proof.C20_Bfs proof.C20_Build proof.C20_Main proof.C20_Hist proof.C20_Analyzer proof.C20_Undirected proof.C20_Order.
 Local Open Scope nat_scope.
 
 (** The index predicate [_is_siphon_indices] is the Petri-net definition: for every network over the
@@ -218,3 +218,19 @@ Theorem C20_undirected_input :
   orient_undirected (undirected_view (bipartite_of n rs)) = bipartite_of n rs.
 Proof. exact main_undirected_input. Qed.
 Print Assumptions C20_undirected_input.
+
+(** Caller-supplied graphs: whatever order the species nodes were inserted in ([with_species_order order]: the export with its
+    species nodes listed in the order [order], any permutation of the ranks), _species_order hands out the same sorted nodes and
+    the same sorted labels, and find_siphons / find_traps report exactly what they report for the export — so the theorems
+    above hold for such graphs: index i of the checked node set and index i of the reported label are the same species. *)
+Theorem C20_species_insertion_order :
+  forall (n : nat) (rs : list rxn) (order : list nat) (max_size : option nat),
+  Permutation order (seq 0 n) ->
+  let G := bipartite_of n rs in
+  let G' := with_species_order order G in
+  species_nodes_sorted G' = species_nodes_sorted G /\
+  species_labels G' = species_labels G /\
+  find_siphons G' max_size = find_siphons G max_size /\
+  find_traps G' max_size = find_traps G max_size.
+Proof. exact main_species_insertion_order. Qed.
+Print Assumptions C20_species_insertion_order.
